@@ -16,7 +16,7 @@ import (
 
 type StoredVisit struct {
 	Doc  int `json:"doc"`            // reduced modulo Count unless Over is set
-	Over int `json:"over,omitempty"` // 1: n=Count, 2: n=Count+1, 3: n huge
+	Over int `json:"over,omitempty"` // 1: n=Count, 2: n=Count+1, 3: n huge, 4: 2^32+doc, 5: 5*2^32+doc, 6: 2^63+doc
 	Stop int `json:"stop,omitempty"` // >0: the visitor returns false at its Stop-th invocation
 	Nest int `json:"nest,omitempty"` // >0: the first callback visits document (Nest-1) mod Count itself (a visitor that looks up another document)
 }
@@ -44,7 +44,8 @@ func genStoredCase(t *rapid.T, prop string) *Case {
 		v := StoredVisit{}
 		switch rapid.IntRange(0, 9).Draw(t, "vkind") {
 		case 0:
-			v.Over = rapid.IntRange(1, 3).Draw(t, "over")
+			v.Over = rapid.IntRange(1, 6).Draw(t, "over")
+			v.Doc = rapid.IntRange(0, 300).Draw(t, "overdoc")
 		case 1, 2:
 			// the last documents of the segment / of a block
 			v.Doc = -1 - rapid.IntRange(0, 3).Draw(t, "fromend")
@@ -138,6 +139,13 @@ func runStoredCase(c *Case, env *Env) *Result {
 			n = uint64(cnt) + 1
 		case v.Over == 3:
 			n = 1<<40 + 12345
+		case v.Over >= 4:
+			// beyond Count, but the low 32 bits name an existing document
+			low := uint64(0)
+			if cnt > 0 {
+				low = uint64(v.Doc % cnt)
+			}
+			n = []uint64{1 << 32, 5 << 32, 1 << 63}[v.Over-4] + low
 		case cnt == 0:
 			n = 0 // == Count: nothing
 		default:
